@@ -47,6 +47,15 @@ func init() {
 	ops["translate"] = func(c Case) ([]byte, map[string]interface{}, error) {
 		nuc, strict := string(b64(c, "nuc")), boolean(c, "strict")
 		t, err := alphabet.Translate(nuc, strict)
+		// a call leaves nothing behind, whether it succeeded or was refused: the same call again gives the same answer, and a fixed
+		// probe translated right afterwards (same goroutine) gives its fixed answer
+		t2, err2 := alphabet.Translate(nuc, strict)
+		if t2 != t || (err == nil) != (err2 == nil) {
+			panic("alphabet.Translate: the same call repeated returned " + t2 + " instead of " + t)
+		}
+		if probe, perr := alphabet.Translate("AAAGGGTGA", false); probe != "KG*" || perr != nil {
+			panic("alphabet.Translate: after this call Translate(AAAGGGTGA, lenient) returned " + probe + " instead of KG* (a refused or finished call must leave nothing behind)")
+		}
 		if err == nil && boolean(c, "load") {
 			if e := underLoad(len(nuc), t, func() string { x, _ := alphabet.Translate(nuc, strict); return x }); e != nil {
 				return []byte(t), nil, e
